@@ -49,6 +49,11 @@ CLAIMED = {
    text="For every value TLC enumerates, the library's output in each flavour must be well-formed and denote exactly the value under the reference grammar (keys, bytes as one code point per byte, enum symbols, the three reserved float strings, '' for the empty string, reserved characters percent-encoded per context as RFC 3986 requires). Conversely 6 JSON variants, 2 escape variants for each of the 3 ROR2 flavours and the untyped reader are fed documents produced independently of the library and must yield Canon(v). TLC checks that the reference encoder and parser are mutually inverse on every value.",
    note="the written protocol and RFC 3986 stand in for a Java peer; envelopes and headers are checked with C02; same value universe and exclusions as C01",
    design="5/C03"),
+ "C09": dict(
+   technique="TLA+ spec Writer.tla (entries supplied in any order, buffered, emitted sorted) model-checked by TLC over every subset and supply order of the key pool; every supply order replayed through the real WriteMap of each writer flavour, BuildQueryParams and the batch key set; every VT value re-encoded repeatedly and across fresh processes",
+   text="TLC checks that the emitted key sequence is a function of the key set only and ascends bytewise (upper before lower case, prefixes first, non-ASCII last) for every supply order of 1..4 keys. Each supply order is replayed by calling the real writers' WriteMap / BuildQueryParams / AddKey in exactly that order; the emitted order must be the specification's and the bytes identical across supply orders. Every VT value (from Values.tla) is encoded three times from freshly built maps in five flavours, object keys must ascend at every level, and a digest over all outputs must be identical in several fresh processes (different map hash seeds).",
+   note="v2 only (as stated); ids are compared in decoded form and, for keys with non-ASCII bytes, only for permutation invariance; signed zeros are not compared",
+   design="5/C09"),
 }
 
 NOT_YET = {}
